@@ -61,6 +61,10 @@ MUTATIONS = [
  ('m41', 'C18', 'src/math/cpu_math.rs', r's/let coeff_p = 2\.0 \* zeta;/let coeff_p = zeta;/', 'ESH update: weight of the old momentum halved'),
  ('m42', 'C18', 'src/math/cpu_math.rs', r's/let arg = momentum_proj \+ \(1\.0 - momentum_proj\) \* zeta \* zeta;/let arg = momentum_proj + (1.0 - momentum_proj) * zeta;/', 'ESH update: reported kinetic-energy change uses zeta instead of zeta^2'),
  ('m43', 'C18', 'src/math/cpu_math.rs', r's/let delta = step_size \* grad_norm \/ dims_m1;/let delta = step_size * grad_norm * dims_m1;/', 'ESH update: delta scaled by (n-1) instead of 1\/(n-1)'),
+ ('m44', 'C12', 'src/sampler.rs', r's/                        Ok\(ChainCommand::Pause\) => \{\n                            msg = stop_marker_rx\.recv\(\)\.map_err\(\|e\| e\.into\(\)\);\n                            continue;\n                        \}/                        Ok(ChainCommand::Pause) => {\n                            msg = stop_marker_rx.try_recv();\n                            continue;\n                        }/', 'a paused chain polls instead of blocking: it goes on drawing as soon as the queue is empty'),
+ ('m45', 'C12', 'src/sampler.rs', r's/                                for chain in chains\.iter\(\) \{\n                                    \/\/ This failes if the thread is done\.\n                                    \/\/ We just want to ignore those threads\.\n                                    let _ = chain\.pause\(\);/                                for chain in chains.iter().skip(1) {\n                                    \/\/ This failes if the thread is done.\n                                    \/\/ We just want to ignore those threads.\n                                    let _ = chain.pause();/', 'pause() is answered although the first chain was never told to pause'),
+ ('m46', 'C12', 'src/sampler.rs', r's/let _ = chain\.resume\(\);/let _ = chain.pause();/', 'Continue sends Pause to the chains'),
+ ('m47', 'C12', 'src/sampler.rs', r's/                    draw \+= 1;\n                    if draw == draws \{\n                        break;\n                    \}\n\n                    msg = stop_marker_rx\.try_recv\(\);/                    draw += 1;\n                    if draw == draws {\n                        break;\n                    }\n                    if draw % 2 == 0 {\n                        msg = stop_marker_rx.try_recv();\n                    }/', 'the command channel is polled only after every second draw'),
  ('e01', 'C18', 'src/mclmc.rs', r's/&& self.draw_count == self.switch_draw/&& self.draw_count >= self.switch_draw/', 'EQUIVALENT on reachable states: must not be flagged'),
  ('e02', 'C08', 'src/math/cpu_math.rs', r's/\*mean \+= diff \* diff_scale;\n                \*var \+= diff \* diff;/*mean += diff * diff_scale;\n                *var += diff * (x - *mean);/', 'EQUIVALENT for the property (ratio of variances unchanged): must not be flagged'),
 ]
